@@ -99,6 +99,10 @@ fn corpus_programs(tier: Tier) -> (Vec<String>, usize) {
         v.push(format!("rock x with {}\nsay x at x\nsay 99\n", list));
         v.push(format!("rock x with {}\nlet x at \"kéy\" be \"vé\"\ncut x\nsay 99\n", list));
     }
+    // call depths the interpreter supports on the main thread's stack (the binary must not run the program on a smaller one)
+    for d in [100usize, 300, 1000] {
+        v.push(format!("deep takes k\nif k is 0\ngive back 0\n\nlet j be k minus 1\ngive back deep taking j\n\nsay \"before\"\nsay deep taking {}\n", d));
+    }
     // assignments of constants (lint diagnostics with and without suggestions)
     for rhs in ["0 - 5", "-5", "-0", "1 over 0", "0 over 0", "\"a\nb\"", "5", "\"a b\"", "105.25", "y"] {
         for form in ["put E into x\n", "let x be E\nsay x\n", "x is E\n", "rock x with E\nsay x at 0\n", "if true\nput E into the zed\n\nput E into Zed Yod\nput E into it\n"] {
